@@ -23,13 +23,53 @@ from .c01 import _Relabel
 from .common import inline_locals, class_closure, holds
 
 
-def _raises_under(fn: FuncInfo, pred) -> list[ast.Raise]:
-    """raise statements of fn whose own (innermost if/case) condition satisfies pred(test, polarity, ff)"""
+def _closure_of(pm, fn: FuncInfo) -> list[FuncInfo]:
+    from .common import class_closure
+    if pm is None:
+        return [fn]
+    if fn.cls is not None:
+        return class_closure(pm, fn.cls, fn)
+    out = [fn]
+    ctx = Ctx(pm, fn)
+    for c in calls_in(fn):
+        for t in ctx.resolve_call(c):
+            if t.fn is not None and t.fn.cls is None and t.fn.module is fn.module and t.fn.name.startswith("_") and t.fn not in out:
+                out.append(t.fn)
+    return out
+
+
+def _sites_in(pm, entry: FuncInfo, g: FuncInfo, node: ast.AST, clo, depth=0) -> list[ast.AST]:
+    """nodes of ``entry`` at which ``node`` (a node of g, entry itself or a helper in its closure) executes"""
+    if g is entry:
+        return [node]
+    if depth > 3:
+        return []
+    out = []
+    for h in clo:
+        if h is g:
+            continue
+        ctx = Ctx(pm, h, entry.cls)
+        for c in calls_in(h):
+            if any(t.fn is g for t in ctx.resolve_call(c)):
+                out += _sites_in(pm, entry, h, c, clo, depth + 1)
+    return out
+
+
+def _raises_under(fn: FuncInfo, pred, pm=None) -> list[ast.Raise]:
+    """raise statements of fn - or, with ``pm``, of a private helper in its closure - whose own (innermost) condition
+    satisfies pred(guard, ff of the function that contains it)"""
+    out = []
+    for g in _closure_of(pm, fn):
+        out += _raises_under_one(g, pred)
+    return out
+
+
+def _raises_under_one(fn: FuncInfo, pred) -> list[ast.Raise]:
     ff = FuncFacts.of(fn)
     out = []
     for r in [n for n in walk_no_nested(fn.node) if isinstance(n, ast.Raise)]:
         gs = [g for g in ff.guards(r) if g.kind in ("if", "case", "early-exit")]
-        own = [g for g in gs if g.kind in ("if", "case")][-1:]
+        own = gs[-1:]  # the innermost condition, whether it encloses the raise or is a guard clause before it
         for g in own:
             # the predicate sees the condition with named intermediate results substituted back (so that
             # `n = len(p); if n != n_data` and `if len(p) != n_data` are the same guard)
@@ -55,6 +95,39 @@ def _is_type_guard(fn: FuncInfo) -> bool:
     if "isinstance" not in txt or "raise TypeError" not in txt:
         return False
     return "DataArray" in txt or "Dataset" in txt
+
+
+_GP_CACHE: dict = {}
+
+
+def guarded_params(pm, fn: FuncInfo, depth: int = 0) -> set[str]:
+    """parameters of ``fn`` whose container type the function validates (raises TypeError unless DataArray / Dataset / list
+    of them), directly or by handing them to a function that does - `None` may be let through (`if p is not None`)"""
+    k = fn.qualname
+    if k in _GP_CACHE:
+        return _GP_CACHE[k]
+    _GP_CACHE[k] = set()
+    out: set[str] = set()
+    params = [q for q in fn.params if q not in ("self", "cls")]
+    if _is_type_guard(fn) and params:
+        out.add(params[0])
+    elif depth < 3:
+        from .common import bind_args
+        ctx = Ctx(pm, fn)
+        for c in calls_in(fn):
+            for t in ctx.resolve_call(c):
+                if t.fn is None or t.fn is fn:
+                    continue
+                gp = guarded_params(pm, t.fn, depth + 1)
+                if not gp:
+                    continue
+                b = bind_args(t.fn, c)
+                for q in gp:
+                    a = b.get(q)
+                    if isinstance(a, ast.Name) and a.id in params:
+                        out.add(a.id)
+    _GP_CACHE[k] = out
+    return out
 
 
 def check(chk):
@@ -142,9 +215,18 @@ def _type_guards(chk):
                                 loop_of[id(c)] = cur
                                 break
                             cur = par.get(id(cur))
+                    ts0 = ctx.resolve_call(c)
+                    if not hit:
+                        # the parameter is handed (in any position) to a helper that validates that argument
+                        from .common import bind_args as _ba
+                        for t in ts0:
+                            if t.fn is not None:
+                                b = _ba(t.fn, c)
+                                if any(isinstance(b.get(q), ast.Name) and b[q].id == p for q in guarded_params(pm, t.fn)):
+                                    guards.append((c, "entry"))
                     if hit:
-                        ts = ctx.resolve_call(c)
-                        if any(t.fn is not None and _is_type_guard(t.fn) for t in ts):
+                        ts = ts0
+                        if any(t.fn is not None and (_is_type_guard(t.fn) or guarded_params(pm, t.fn)) for t in ts):
                             guards.append((c, "entry"))
                         elif any(t.fn is not None and t.fn.cls is not None and t.fn.cls.name == "Preprocessor" and t.fn.name in ("transform", "fit_transform", "fit") for t in ts) and stage_ok:
                             guards.append((c, "preprocessor"))
@@ -265,17 +347,27 @@ def _src(ff, e):
 
 
 def _role(chk, name, fn: FuncInfo, pred, why, dominates=None):
-    rs = _raises_under(fn, pred)
+    pm = chk.pm
+    rs = _raises_under(fn, pred, pm)
     ok = bool(rs)
     node = rs[0] if rs else fn.node
     if ok and dominates is not None:
         ff = FuncFacts.of(fn)
-        st = ff.cfg.enclosing_stmt(rs[0])
-        # the `if` that owns the raise
-        ifs = [s for s in ff.statements() if isinstance(s, (ast.If, ast.Match)) and any(x is rs[0] for x in ast.walk(s))]
-        gn = ff.cfg.node_of_stmt.get(id(ifs[0])) if ifs else None
+        clo = _closure_of(pm, fn)
+        owner = next((g for g in clo if any(x is rs[0] for x in ast.walk(g.node))), fn)
+        if owner is fn:
+            # the `if` that owns the raise (or the guard clause before it)
+            ifs = [s for s in ff.statements() if isinstance(s, (ast.If, ast.Match)) and any(x is rs[0] for x in ast.walk(s))]
+            anchors = [ifs[0]] if ifs else [rs[0]]
+            # a guard clause: the exiting `if` that precedes the raise
+            og = [g for g in ff.guards(rs[0]) if g.kind == "early-exit"]
+            if not ifs and og:
+                anchors = [s for s in ff.statements() if isinstance(s, ast.If) and s.test is og[-1].test] or anchors
+        else:
+            anchors = _sites_in(pm, fn, owner, rs[0], clo)
+        gns = [ff.cfg.node_for(a) for a in anchors]
         uses = dominates(fn, ff)
-        ok = gn is not None and all(ff.cfg.dominates(gn, ff.cfg.node_for(u)) for u in uses)
+        ok = bool(gns) and all(any(gn is not None and ff.cfg.dominates(gn, ff.cfg.node_for(u)) for gn in gns) for u in uses)
         if not ok:
             why = why + " (the check does not precede the use it protects)"
     chk.check(ok, f"GUARD.role.{name}", fn, node, construct=f"{fn.qualname}: {name}", why=why)
@@ -315,7 +407,7 @@ def _roles(chk):
     cases = set()
     default_raises = False
     for head in chain_heads(snm.node):
-        sw = switch_cases(head)
+        sw = switch_cases(head, snm.node)
         if sw is not None and sw[0] == "n_modes" and any(str(k).startswith("type:") for ks, _ in sw[1] for k in ks):
             cases = {str(k) for ks, _ in sw[1] for k in ks}
             default_raises = sw[2] is not None and any(isinstance(x, ast.Raise) for x in sw[2])
@@ -367,8 +459,27 @@ def _roles(chk):
     _role(chk, "alpha", winit, lambda g, ff: holds(g.test, True, "Lt", lambda e: "alpha" in norm(e), lambda e: isinstance(e, ast.Constant) and e.value == 0),
           "a negative alpha is no longer refused")
     # item counts
+    def srcs(ff, e):
+        """(parameter names with the attribute / function names applied to them, self attributes) read by an expression"""
+        ps = ff.paths(e, spine_only=False, follow=True)
+        params = {(p.atom.name, tuple(o.name.split(".")[-1] for o in p.ops if o.kind in ("attr", "arg", "method"))) for p in ps if p.atom.kind == "param"}
+        attrs = {p.atom.name for p in ps if p.atom.kind == "selfattr"}
+        return params, attrs
+
+    def count_vs_fitted(g, ff):
+        # the number of items given (len of a parameter) differs from the fitted number (self.n_data)
+        from .common import cmp_forms
+        for op, a, b in cmp_forms(inline_locals(ff, g.test), g.polarity):
+            if op != "NotEq":
+                continue
+            pa, aa = srcs(ff, a)
+            pb, ab = srcs(ff, b)
+            if (any("len" in ops for _, ops in pa) and "self.n_data" in ab) or (any("len" in ops for _, ops in pb) and "self.n_data" in aa):
+                return True
+        return False
+
     ptr = M("xeofs.preprocessing.preprocessor.Preprocessor", "transform")
-    _role(chk, "item_count", ptr, cmp_pred(any_text=("len(", "n_data")), "a wrong number of data items is no longer refused at transform",
+    _role(chk, "item_count", ptr, lambda g, ff: count_vs_fitted(g, ff) or cmp_pred(any_text=("len(", "n_data"))(g, ff), "a wrong number of data items is no longer refused at transform",
           dominates=lambda fn, ff: [c for c in calls_in(fn) if isinstance(c.func, ast.Attribute) and c.func.attr == "transform"])
     ctr = M("xeofs.preprocessing.concatenator.Concatenator", "transform")
     _role(chk, "item_count", ctr, cmp_pred(any_text=("len(", "n_data")), "a wrong number of 2-D arrays is no longer refused by the concatenator")
@@ -377,7 +488,19 @@ def _roles(chk):
     _role(chk, "param_count", cpn, cmp_pred(any_text=("len(", "n_data")), "a weights/parameter list of the wrong length is no longer refused")
     # Stacker
     st = "xeofs.preprocessing.stacker.Stacker"
-    _role(chk, "transform_dims", M(st, "_validate_transform_dimensions"), cmp_pred(any_text=("expected_dims", "given_dims")),
+    def dims_vs_fitted(g, ff):
+        # the dimensions of the data differ from the dimensions recorded at fit (dims_mapping)
+        from .common import cmp_forms
+        for op, a, b in cmp_forms(inline_locals(ff, g.test), g.polarity):
+            if op != "NotEq":
+                continue
+            pa, aa = srcs(ff, a)
+            pb, ab = srcs(ff, b)
+            if (any("dims" in ops for _, ops in pa) and "self.dims_mapping" in ab) or (any("dims" in ops for _, ops in pb) and "self.dims_mapping" in aa):
+                return True
+        return False
+
+    _role(chk, "transform_dims", M(st, "_validate_transform_dimensions"), dims_vs_fitted,
           "transform data with other dimensions than the fitted data is no longer refused")
     _role(chk, "feature_coords", M(st, "_validate_transform_feature_coords"), lambda g, ff: "coords_are_equal" in norm(g.test) or "equals" in norm(g.test),
           "transform data with other feature coordinates is no longer refused")
